@@ -6,6 +6,7 @@ import (
 	"fmt"
 
 	"github.com/bilibili/smgo/sm4"
+	"verifharness/arm64glue"
 )
 
 // ---- GF(2^128) in the GCM bit order, used only to *craft* nonces -------------------------------------
@@ -80,6 +81,14 @@ func gcmPaths() []gcmPath {
 			return blk.(gcmAbleIface).NewGCM(ns, ts)
 		}})
 	}
+	// the Go glue of the arm64 path (sm4_gcm_arm64.go, copied from /repo on every run) over portable
+	// stand-ins for the NEON/PMULL kernels: exercises the glue, not the kernels
+	ps = append(ps, gcmPath{"arm64-glue", func(key []byte, ns, ts int) (cipher.AEAD, error) {
+		if ts < 12 || ts > 16 || ns <= 0 {
+			return nil, fmt.Errorf("sizes")
+		}
+		return arm64glue.NewAEAD(key, ns, ts)
+	}})
 	ps = append(ps, gcmPath{"stdlib-generic", func(key []byte, ns, ts int) (cipher.AEAD, error) {
 		sm4.VerifSetCandoAsm(false)
 		blk, err := sm4.NewCipher(key)
